@@ -207,6 +207,7 @@ def connEvOf (e : Ev) : Option ConnLoop.Ev :=
   | "loop.spawn" => some (.spawn e.req)
   | "req.start" => some (.reqStart e.req)
   | "req.done" => some (.reqDone e.req)
+  | "req.recovered" => some (.reqRecovered e.req)
   | "conn.init" => some .init
   | "conn.recovered" => some .recovered
   | "conn.teardown" => some .teardown
